@@ -452,4 +452,11 @@ example :
     fixPath (remapMsgs c [4, 0, 3] ms 0 0).2 [4, 0, 3] [1] = some ([0], false) ∧
     fixPath (remapMsgs c [4, 0, 3] ms 0 0).2 [4, 0, 3] [0] = none ∧ msgFlags c ms = [false, true] := by decide
 
+/-- The fuel the correspondence driver actually runs with, `max (defaultFuel img) (fuelBound img)`,
+    is never exhausted (repair of the model defect recorded by
+    `defaultFuel_insufficient_counterexample`). -/
+theorem driver_fuel_suffices (cfg : Cfg) (img : Image) (o : Opts) :
+    filterWith cfg img o (max (defaultFuel img) (fuelBound img)) ≠ .error .fuel :=
+  (fuel_suffices cfg img o _ (Nat.le_max_right _ _)).2
+
 end BufProofs.C12
